@@ -133,7 +133,10 @@ func vpUpgrade(u *websocket.Upgrader, w http.ResponseWriter, r *http.Request, h 
 	return nil, nil
 }
 func vpWSConnClose(c *websocket.Conn) error      { vpWSConnCloses++; return nil }
-func vpWSUnderlying(c *websocket.Conn) net.Conn { return nil }
+// the connection below the websocket (nil unless a harness sets it)
+var vpWSUnder net.Conn
+
+func vpWSUnderlying(c *websocket.Conn) net.Conn { return vpWSUnder }
 
 // go-cache contract: Get returns the latest Set for the key, unless expired (any time).
 var vpCache map[string]interface{}
@@ -218,6 +221,7 @@ func vpResetHandlers() {
 	vpNextTransports, vpMadeTransports, vpHijackFails = nil, nil, false
 	vpUpgradeFails, vpWSConnCloses = false, 0
 	vpWSReadLimit = 0
+	vpWSUnder = nil
 	vpCache, vpCacheMayExpire, vpCacheGets = map[string]interface{}{}, false, 0
 	vpExpiredAny, vpCacheSetLog = false, nil
 	vpWSGauge, vpLegacyGauge, vpCacheGauge = &vpGauge{}, &vpGauge{}, &vpGauge{}
